@@ -16452,3 +16452,346 @@ func E11SelectorBacktracks(c *core.Ctx, r *core.Report) {
 	r.Count("E11.selector-ancestor-loops", n)
 	r.Floor("E11.selector-ancestor-loops", 1)
 }
+
+// E11BidiRunOrigin: a run of spans that is reversed is laid out again from its left edge, which end that is depends on the level.
+func E11BidiRunOrigin(c *core.Ctx, r *core.Report) {
+	r.Rule("E11.bidi-run-origin", "reorderSpans puts the spans of a line into visual order: for every embedding level it reverses the runs of that level and deeper, laying the spans out again from the run's left edge (`spans[i].X = x; x += spans[i].Width`). Which span holds the left edge depends on what happened before: at an odd level the run is still in logical order and starts at its first span; an even-level run lies inside an odd-level run that has just been reversed, so its leftmost span is the last one. The variable the layout starts from is therefore not one fixed end of the run: it is assigned under a test of the level's parity (or folded as a minimum over the run). Taking `spans[first].X` at every level moves a left-to-right phrase of two spans inside a right-to-left paragraph to the right, over its neighbour")
+	p := c.MustPkg("")
+	info := p.TypesInfo
+	fd := core.MustFuncDecl(p, "reorderSpans")
+	r.Func("canvas.reorderSpans")
+	n := 0
+	ast.Inspect(fd.Body, func(m ast.Node) bool {
+		blk, ok := m.(*ast.BlockStmt)
+		if !ok {
+			return true
+		}
+		for si, st := range blk.List {
+			fs, ok := st.(*ast.ForStmt)
+			if !ok {
+				continue
+			}
+			// the loop re-lays spans: spans[i].X = x
+			var xo types.Object
+			for _, q := range fs.Body.List {
+				as, ok := q.(*ast.AssignStmt)
+				if !ok || len(as.Lhs) != 1 || len(as.Rhs) != 1 || as.Tok != token.ASSIGN {
+					continue
+				}
+				se, ok := as.Lhs[0].(*ast.SelectorExpr)
+				if !ok || se.Sel.Name != "X" {
+					continue
+				}
+				if _, ok := core.Unparen(se.X).(*ast.IndexExpr); !ok {
+					continue
+				}
+				if id, ok := core.Unparen(as.Rhs[0]).(*ast.Ident); ok {
+					xo = core.ObjOf(info, id)
+				}
+			}
+			if xo == nil {
+				continue
+			}
+			n++
+			key := fmt.Sprintf("canvas.reorderSpans|start of re-layout #%d depends on the level", n)
+			// definitions of x in front of the loop, in this block
+			plain, guarded, other := 0, 0, 0
+			var first token.Pos
+			for _, prev := range blk.List[:si] {
+				walkStack(prev, func(q ast.Node, stack []ast.Node) {
+					as, ok := q.(*ast.AssignStmt)
+					if !ok {
+						return
+					}
+					for i, l := range as.Lhs {
+						id, ok := l.(*ast.Ident)
+						if !ok || core.ObjOf(info, id) != xo || i >= len(as.Rhs) {
+							continue
+						}
+						if first == token.NoPos {
+							first = as.Pos()
+						}
+						byLevel := false
+						for _, a := range stack {
+							if is, ok := a.(*ast.IfStmt); ok {
+								ast.Inspect(is.Cond, func(k ast.Node) bool {
+									if be, ok := k.(*ast.BinaryExpr); ok && (be.Op == token.REM || be.Op == token.AND) {
+										byLevel = true
+									}
+									return true
+								})
+							}
+						}
+						rhs := core.Unparen(as.Rhs[i])
+						if se, ok := rhs.(*ast.SelectorExpr); ok && se.Sel.Name == "X" {
+							if byLevel {
+								guarded++
+							} else {
+								plain++
+							}
+						} else {
+							other++
+						}
+					}
+				})
+				if ds, ok := prev.(*ast.DeclStmt); ok && first == token.NoPos {
+					first = ds.Pos()
+				}
+			}
+			switch {
+			case plain > 0 && guarded == 0 && other == 0:
+				r.Fail("E11.bidi-run-origin", key, c.Pos(first), "the re-layout of a reversed run starts from the same end of the run at every level: an even-level run lies inside an already reversed odd-level run, where that end is the right edge — the run is shifted over its neighbour")
+			case plain+guarded+other == 0:
+				r.Fail("E11.bidi-run-origin", key, c.Pos(fs.Pos()), "no definition of the start position found in front of the loop")
+			default:
+				r.OK("E11.bidi-run-origin", key, c.Pos(fs.Pos()), fmt.Sprintf("%d by parity, %d computed", guarded, other))
+			}
+		}
+		return true
+	})
+	r.Count("E11.bidi-relayouts", n)
+	r.Floor("E11.bidi-relayouts", 1)
+}
+
+// E11ImplicitLineToRelativity: coordinate pairs after a moveto are lineto commands of the same relativity.
+func E11ImplicitLineToRelativity(c *core.Ctx, r *core.Report) {
+	r.Rule("E11.implicit-lineto-relativity", "SVG 1.1 §8.3.2: if a moveto is followed by further coordinate pairs they are implicit lineto commands, relative after `m` and absolute after `M`. ParseSVGPath keeps the command letter in a variable that stays in force for following pairs, so the moveto case leaves it as 'l' when it was entered with 'm' and as 'L' when it was entered with 'M' — decided by walking the case body once per letter with the tests of the variable against a letter evaluated. 'L' after both reads `m10 10 40 0 0 30z` (as Inkscape writes paths) as a triangle with corners at (40,0) and (0,30) instead of (50,10) and (50,40)")
+	p := c.MustPkg("")
+	info := p.TypesInfo
+	fd := core.MustFuncDecl(p, "ParseSVGPath")
+	r.Func("canvas.ParseSVGPath")
+	n := 0
+	ast.Inspect(fd.Body, func(m ast.Node) bool {
+		ss, ok := m.(*ast.SwitchStmt)
+		if !ok || ss.Tag == nil {
+			return true
+		}
+		tid, ok := core.Unparen(ss.Tag).(*ast.Ident)
+		if !ok {
+			return true
+		}
+		cmdO := core.ObjOf(info, tid)
+		for _, cs := range ss.Body.List {
+			cc := cs.(*ast.CaseClause)
+			letters := map[int64]bool{}
+			for _, e := range cc.List {
+				if v, ok := core.ConstInt(info, e); ok {
+					letters[v] = true
+				}
+			}
+			if !letters['M'] || !letters['m'] {
+				continue
+			}
+			for _, w := range []struct{ in, want int64 }{{'m', 'l'}, {'M', 'L'}} {
+				n++
+				key := fmt.Sprintf("canvas.ParseSVGPath|pairs after `%c` are `%c` commands", rune(w.in), rune(w.want))
+				cur, known := w.in, true
+				var walk func(list []ast.Stmt)
+				walk = func(list []ast.Stmt) {
+					for _, st := range list {
+						switch x := st.(type) {
+						case *ast.AssignStmt:
+							for i, l := range x.Lhs {
+								if id, ok := l.(*ast.Ident); ok && core.ObjOf(info, id) == cmdO && i < len(x.Rhs) {
+									if v, ok := core.ConstInt(info, x.Rhs[i]); ok {
+										cur, known = v, true
+									} else {
+										known = false
+									}
+								}
+							}
+						case *ast.IfStmt:
+							t := evalBool(info, x.Cond, func(a ast.Expr) tri {
+								be, ok := a.(*ast.BinaryExpr)
+								if !ok || (be.Op != token.EQL && be.Op != token.NEQ) || !known {
+									return tUnknown
+								}
+								for _, pr := range [][2]ast.Expr{{be.X, be.Y}, {be.Y, be.X}} {
+									if id, ok := core.Unparen(pr[0]).(*ast.Ident); ok && core.ObjOf(info, id) == cmdO {
+										if v, ok := core.ConstInt(info, pr[1]); ok {
+											return triOf((v == cur) == (be.Op == token.EQL))
+										}
+									}
+								}
+								return tUnknown
+							})
+							switch t {
+							case tTrue:
+								walk(x.Body.List)
+							case tFalse:
+								if eb, ok := x.Else.(*ast.BlockStmt); ok {
+									walk(eb.List)
+								} else if ei, ok := x.Else.(*ast.IfStmt); ok {
+									walk([]ast.Stmt{ei})
+								}
+							default:
+								// undecided: both arms must leave the same letter
+								c0, k0 := cur, known
+								walk(x.Body.List)
+								c1, k1 := cur, known
+								cur, known = c0, k0
+								if eb, ok := x.Else.(*ast.BlockStmt); ok {
+									walk(eb.List)
+								} else if ei, ok := x.Else.(*ast.IfStmt); ok {
+									walk([]ast.Stmt{ei})
+								}
+								if !k1 || !known || c1 != cur {
+									known = false
+								}
+							}
+						case *ast.BlockStmt:
+							walk(x.List)
+						}
+					}
+				}
+				walk(cc.Body)
+				switch {
+				case !known:
+					r.Fail("E11.implicit-lineto-relativity", key, c.Pos(cc.Pos()), "the command letter left for following pairs cannot be determined")
+				case cur != w.want:
+					r.Fail("E11.implicit-lineto-relativity", key, c.Pos(cc.Pos()), fmt.Sprintf("after `%c` the letter left for following coordinate pairs is `%c`, SVG makes them `%c`: the pairs are read %s", rune(w.in), rune(cur), rune(w.want), map[bool]string{true: "as absolute positions instead of offsets", false: "as offsets instead of absolute positions"}[w.in == 'm']))
+				default:
+					r.OK("E11.implicit-lineto-relativity", key, c.Pos(cc.Pos()), "")
+				}
+			}
+		}
+		return true
+	})
+	r.Count("E11.moveto-letter-worlds", n)
+	r.Floor("E11.moveto-letter-worlds", 2)
+}
+
+// E11ArcShortcutOrientation: a shortcut in Transform's arc case that carries the rotation over by addition excludes reflections.
+func E11ArcShortcutOrientation(c *core.Ctx, r *core.Report) {
+	r.Rule("E11.arc-shortcut-orientation", "Path.Transform maps an elliptical arc through the conic of its ellipse; a branch of the arc case that leaves early (`continue`) replaces that computation by a closed form. A closed form that carries the stored rotation over by addition (`phi = phi + rot`) is right for rotations and uniform scalings only: under a reflection the axis direction θ becomes α − θ, not θ + α. Such a branch must therefore be guarded by a test of the orientation of the matrix — a conjunct that reads the determinant or both scale factors of the decomposition. IsSimilarity alone also holds for `Scale(1,-1)`: the reflected arc keeps its end points and radii and lies on a wrongly tilted ellipse")
+	p := c.MustPkg("")
+	info := p.TypesInfo
+	fd := core.MustFuncDecl(p, "Path.Transform")
+	r.Func("canvas.Path.Transform")
+	// scale factors of the decomposition
+	scales := map[types.Object]bool{}
+	ast.Inspect(fd.Body, func(m ast.Node) bool {
+		as, ok := m.(*ast.AssignStmt)
+		if !ok || len(as.Rhs) != 1 {
+			return true
+		}
+		if ce, ok := core.Unparen(as.Rhs[0]).(*ast.CallExpr); ok {
+			if f := core.CalleeOf(info, ce); f != nil && f.Name() == "Decompose" && len(as.Lhs) == 6 {
+				for _, k := range []int{3, 4} {
+					if id, ok := as.Lhs[k].(*ast.Ident); ok && id.Name != "_" {
+						scales[core.ObjOf(info, id)] = true
+					}
+				}
+			}
+		}
+		return true
+	})
+	n := 0
+	for _, cc := range cmdSwitchClauses(p, fd) {
+		isArc := false
+		for _, e := range cc.List {
+			if core.ConstName(info, e) == "ArcToCmd" {
+				isArc = true
+			}
+		}
+		if !isArc {
+			continue
+		}
+		// the rotation variable: assigned from p.d[i+3]
+		var phi types.Object
+		for _, st := range cc.Body {
+			as, ok := st.(*ast.AssignStmt)
+			if !ok {
+				continue
+			}
+			for i, rh := range as.Rhs {
+				if ie, _, ok := dataIndex(info, core.Unparen(rh)); ok && len(as.Lhs) == len(as.Rhs) {
+					if be, ok := core.Unparen(ie.Index).(*ast.BinaryExpr); ok && be.Op == token.ADD {
+						if v, ok := core.ConstInt(info, be.Y); ok && v == 3 {
+							if id, ok := as.Lhs[i].(*ast.Ident); ok {
+								phi = core.ObjOf(info, id)
+							}
+						}
+					}
+				}
+			}
+		}
+		if phi == nil {
+			continue
+		}
+		for _, st := range cc.Body {
+			is, ok := st.(*ast.IfStmt)
+			if !ok {
+				continue
+			}
+			leaves := false
+			ast.Inspect(is.Body, func(q ast.Node) bool {
+				if bs, ok := q.(*ast.BranchStmt); ok && bs.Tok == token.CONTINUE {
+					leaves = true
+				}
+				return true
+			})
+			if !leaves {
+				continue
+			}
+			additive := false
+			ast.Inspect(is.Body, func(q ast.Node) bool {
+				as, ok := q.(*ast.AssignStmt)
+				if !ok {
+					return true
+				}
+				for i, l := range as.Lhs {
+					if id, ok := l.(*ast.Ident); ok && core.ObjOf(info, id) == phi && i < len(as.Rhs) {
+						if as.Tok == token.ADD_ASSIGN || as.Tok == token.SUB_ASSIGN {
+							additive = true
+						}
+						ast.Inspect(as.Rhs[i], func(k ast.Node) bool {
+							if be, ok := k.(*ast.BinaryExpr); ok && (be.Op == token.ADD || be.Op == token.SUB) {
+								ast.Inspect(be, func(z ast.Node) bool {
+									if zid, ok := z.(*ast.Ident); ok && core.ObjOf(info, zid) == phi {
+										additive = true
+									}
+									return true
+								})
+							}
+							return true
+						})
+					}
+				}
+				return true
+			})
+			if !additive {
+				continue
+			}
+			n++
+			key := fmt.Sprintf("canvas.Path.Transform|arc shortcut #%d that adds to the rotation excludes reflections", n)
+			oriented := false
+			for _, t := range andTerms(is.Cond) {
+				det, sc := false, 0
+				ast.Inspect(t, func(q ast.Node) bool {
+					switch x := q.(type) {
+					case *ast.CallExpr:
+						if f := core.CalleeOf(info, x); f != nil && f.Name() == "Det" {
+							det = true
+						}
+					case *ast.Ident:
+						if scales[core.ObjOf(info, x)] {
+							sc++
+						}
+					}
+					return true
+				})
+				if det || sc >= 2 {
+					oriented = true
+				}
+			}
+			if oriented {
+				r.OK("E11.arc-shortcut-orientation", key, c.Pos(is.Pos()), c.Src(is.Cond))
+			} else {
+				r.Fail("E11.arc-shortcut-orientation", key, c.Pos(is.Pos()), fmt.Sprintf("the branch under `%s` leaves the arc case with the rotation carried over by addition and no conjunct reads the orientation of the matrix: under a reflection the axis turns the other way (α − φ), so the arc lies on a wrongly tilted ellipse", c.Src(is.Cond)))
+			}
+		}
+	}
+	// no shortcut today: the rule is exercised by its mutant
+	r.Count("E11.arc-shortcuts-additive", n)
+}
